@@ -90,6 +90,10 @@ class Prop(SeqProp):
                         d[(pyval(s, i % 3 == 0), pyval(e, i % 2 == 0))] = dec_val(i)  # the model calls it i + 1; small codes are falsy objects
                     m = None
                     m = ImmutIntervalMap(d)
+                    # the caller goes on using its dict: the immutable map keeps what it was built from
+                    d[(10 ** 6, 10 ** 6 + 1)] = "late"
+                    if st[1]:
+                        d.pop(next(iter(d)))
                     out.append("ok")
                 elif m is None:
                     out.append("bad-op")
